@@ -46,7 +46,7 @@ def contracts():
 """, at=[("before", "let nb_mili", 1, "proof { assert(self.lim()[self.limits@.len() - 1].0 >= 1); }")]),
         "request_allowed": FnSpec(ret="r", ghost=True, sig="""
     requires self.wf_limits(),
-    ensures final(w).admissions == old(w).admissions, final(w).net == old(w).net, //@C09.ra_frame
+    ensures final(w).admissions == old(w).admissions, final(w).net == old(w).net, final(w).fs == old(w).fs, //@C09.ra_frame
             final(w).clock >= old(w).clock, //@C09.ra_clock
             // admitted only if every limit has room, measured at the clock on return
             r ==> forall|l: int| 0 <= l < self.lim().len() ==>
@@ -57,7 +57,7 @@ def contracts():
                 (newer(self.log(), old(w).clock - (#[trigger] self.lim()[l]).1).len() >= self.lim()[l].0
                  || old(w).clock - self.lim()[l].1 < inst_floor()), //@C09.ra_complete
 """, loops={1: """
-    invariant w.admissions == old(w).admissions, w.net == old(w).net, w.clock >= old(w).clock, self.wf_limits(),
+    invariant w.admissions == old(w).admissions, w.net == old(w).net, w.fs == old(w).fs, w.clock >= old(w).clock, self.wf_limits(),
         forall|l: int| 0 <= l < iter.index@ ==>
             newer(self.log(), w.clock - (#[trigger] self.lim()[l]).1).len() < self.lim()[l].0,
 """},
@@ -95,7 +95,7 @@ def contracts():
         "prune_log": FnSpec(ghost=True, sig="""
     requires old(self).inv(*old(w)),
     ensures final(self).inv(*final(w)), //@C09.pl_inv
-            final(w).admissions == old(w).admissions, final(w).net == old(w).net, //@C09.pl_frame
+            final(w).admissions == old(w).admissions, final(w).net == old(w).net, final(w).fs == old(w).fs, //@C09.pl_frame
             final(w).clock >= old(w).clock, //@C09.pl_clock
             final(self).limits == old(self).limits,
 """, rewrites=[NOW,
@@ -142,10 +142,10 @@ def contracts():
             old(self).lim().len() == 0 ==> final(w).admissions == old(w).admissions, //@C09.no_limits
             old(self).lim().len() > 0 ==> final(w).admissions == old(w).admissions.push(final(w).clock), //@C09.one_admission
             // the caller leaves with one limiter pass, and nothing else of the network state changed
-            final(w).net == (Net { permit: true, ..old(w).net }), //@C09.permit
+            final(w).net == (Net { permit: true, ..old(w).net }), final(w).fs == old(w).fs, //@C09.permit
 """, loops={1: """
     invariant self.inv(*w), w.clock >= old(w).clock, self.limits == old(self).limits,
-        w.admissions == old(w).admissions, self.limits@.len() > 0, w.net == old(w).net,
+        w.admissions == old(w).admissions, self.limits@.len() > 0, w.net == old(w).net, w.fs == old(w).fs,
 """},
             rewrites=[NOW],
             at=[("before_stmt", "return;", 1, "proof { w.net.permit = true; }"),
